@@ -265,7 +265,7 @@ impl Cfg {
                 // every option is first set to another value (in an order that
                 // depends on the configuration); only the last call per option
                 // may count, whatever the other options were at the time.
-                let h = self.kind as usize * 7 + self.sk as usize * 5 + self.ci as usize * 3 + self.pre as usize + self.byte_classes as usize * 11 + self.dense_depth.unwrap_or(9) + self.imp as usize * 13;
+                let h = self.kind as usize * 7 + self.sk as usize * 5 + self.ci as usize * 3 + self.pre as usize + self.byte_classes as usize * 11 + (self.dense_depth.unwrap_or(9) % 1000) + self.imp as usize * 13;
                 if h % 2 == 1 {
                     let other_kind = [AhoCorasickKind::NoncontiguousNFA, AhoCorasickKind::ContiguousNFA, AhoCorasickKind::DFA][h % 3];
                     let steps: [u8; 6] = [[0, 1, 2, 3, 4, 5], [5, 1, 0, 4, 3, 2], [2, 5, 4, 1, 0, 3]][(h / 2) % 3];
